@@ -19,12 +19,15 @@ FEATURE_SETS = [
     "as_str, from_str, into, MAX, MIN, next, next_back, try_from, Debug, Display, FromStr, Into, IntoStr, TryFrom, iter, names, range",
     "MIN, MAX",
     "TryFrom, Into",
+    "-",  # bare derive, no enum_tools attribute at all
+    "names, iter, try_from, next, into",
+    "as_str(mode = \"table\"), from_str(mode = \"table\"), names",
 ]
 
 
 def item_text(pre: str, attrs: str, body: str, derive=True, feats=None) -> str:
     d = "#[derive(Clone, Copy, EnumTools)]" if derive else "#[derive(Clone, Copy)]"
-    f = ("#[enum_tools(%s)]\n" % feats) if (derive and feats) else ""
+    f = ("#[enum_tools(%s)]\n" % feats) if (derive and feats and feats != "-") else ""
     return "%s%s\n%s\n%s%s\n%s\n" % (HEAD if derive else "", pre, d, f, attrs, body)
 
 
@@ -109,6 +112,10 @@ def c12_items(tier: str, seed: int):
                 vs.insert(pos, f)
                 # a leading implicit variant after a field variant is fine for rustc
                 add("field_%s@%d" % (fname, pos), "", "#[repr(%s)]" % r, "pub enum E { %s }" % ", ".join(vs))
+                if fname.startswith("empty") and pos == 1:
+                    # variants with an *empty* field list: under every feature set (some never name the variant)
+                    for fs in FEATURE_SETS:
+                        add("field_%s_all_sets" % fname, "", "#[repr(%s)]" % r, "pub enum E { %s }" % ", ".join(vs), feats=fs)
     # 4. non-literal discriminants, at every position of several bases
     reprs = ["u8", "i8", "i32", "u64", "i128", "usize"] if tier != "quick" else ["u8", "i8", "i64"]
     for r in reprs:
@@ -298,6 +305,8 @@ def c14_items(tier: str, seed: int):
         kinds.append(("mixed5", [("A", None, "x"), ("B", "7", None), ("C", None, None), ("D", "2", "A"), ("E", None, None)]))
         kinds.append(("dupname4", [("A", "1", "n"), ("B", "2", "n"), ("C", "3", None), ("D", "4", None)]))
         kinds.append(("hex4", [("A", "0x10", None), ("B", "0b11", None), ("C", "-0o7", "zz"), ("D", "1_000", None)]))
+    kinds.append(("i64_limits4", [("A", "-9223372036854775808", None), ("B", "0", None), ("C", "9223372036854775807", None), ("D", "5", "zz")]))
+    kinds.append(("i64_implicit_to_max3", [("A", "0x7fff_ffff_ffff_fffe", None), ("B", None, None), ("C", "-1", None)]))
     flags = [(False, False), (True, False), (False, True), (True, True)]
     for label, vs in kinds:
         perms = list(itertools.permutations(range(len(vs))))
@@ -316,7 +325,7 @@ def c14_items(tier: str, seed: int):
                 names.append(ident if ren is None else ren)
             if len(set(vals)) != len(vals):
                 continue  # duplicate discriminants: not valid Rust at all
-            repr_ = "i16"
+            repr_ = "i64" if label.startswith("i64") else ("i128" if label == "case3" else "i16")
             val_sorted = all(a < b for a, b in zip(vals, vals[1:]))
             name_sorted = all(a.encode() < b.encode() for a, b in zip(names, names[1:]))
             for sv, sn in flags:
